@@ -731,7 +731,10 @@ func openStream(f h2.StreamProcessorFactory, cur **streamRun, c Case) *streamRun
 func (s *streamRun) stepC() {
 	if s.errC == nil {
 		o := s.opsC[s.atC]
-		if s.errC = guarded(0, &s.opsC[s.atC], s.atC, func() error { return apply(s.hc, o) }); s.errC != nil {
+		enter(0, &s.opsC[s.atC], s.atC)
+		s.errC = apply(s.hc, o)
+		leave(0)
+		if s.errC != nil {
 			s.errC = fmt.Errorf("op %d %c(%d bytes,end=%v): %w", s.atC, o.kind, len(o.data), o.end, s.errC)
 		}
 	}
@@ -741,7 +744,10 @@ func (s *streamRun) stepC() {
 func (s *streamRun) stepS() {
 	if s.errS == nil {
 		o := s.opsS[s.atS]
-		if s.errS = guarded(1, &s.opsS[s.atS], s.atS, func() error { return apply(s.hs, o) }); s.errS != nil {
+		enter(1, &s.opsS[s.atS], s.atS)
+		s.errS = apply(s.hs, o)
+		leave(1)
+		if s.errS != nil {
 			s.errS = fmt.Errorf("op %d %c(%d bytes,end=%v): %w", s.atS, o.kind, len(o.data), o.end, s.errS)
 		}
 	}
